@@ -564,10 +564,161 @@ def rule_show_config_covers_all(prog, fixture=False):
     return r
 
 
+# ---------------------------------------------------------------- R-C16-7
+def rule_enumeration_covers_all(prog, fixture=False):
+    r = RuleResult("R-C16-7", "a method of the drive table that hands out the list of occupied drive numbers walks the "
+                   "table itself: a loop that counts up and stops at the first unoccupied number misses every drive "
+                   "behind a gap (side 2 of a double-sided image is drive 2 while drive 1 is empty)",
+                   floor=0 if fixture else 1)
+    for fn in prog.functions.values():
+        if "StorageConfiguration::" not in fn.qn and not fixture:
+            continue
+        rt = fn.raw.get("rt") or fn.raw.get("t") or ""
+        rets = [strip_all(n["c"][0]) for n in fn.walk() if n.get("k") == "ReturnStmt" and n.get("c")]
+        vec = set()
+        for e in rets:
+            x = e
+            while x is not None and x.get("k") == "CXXConstructExpr" and len(x.get("c", [])) == 1:
+                x = strip_all(x["c"][0])
+            if x is not None and x.get("k") == "DeclRefExpr" and x.get("dk") == "Var" and "vector" in (x.get("t") or x.get("ct") or ""):
+                vec.add(x["d"])
+        for d in vec:
+            pushes = [n for n in fn.walk() if n.get("k") == "CXXMemberCallExpr" and
+                      (strip(n["c"][0]) or {}).get("n") in ("push_back", "emplace_back") and
+                      (strip_all((strip(n["c"][0]) or {}).get("c", [None])[0]) or {}).get("d") == d]
+            for pb in pushes:
+                # what is pushed must be a drive number: a key of the table or the loop's counter
+                loop = None
+                for a in fn.ancestors(pb):
+                    if a.get("k") in ("ForStmt", "WhileStmt", "DoStmt", "CXXForRangeStmt"):
+                        loop = a
+                        break
+                if loop is None:
+                    continue
+                key = "%s::%s::enumeration" % (fn.relfile(), fn.qn)
+                if loop["k"] == "CXXForRangeStmt":
+                    rng = loop["c"][loop["parts"]["range"]]
+                    is_map = any(x.get("k") == "MemberExpr" and "map" in (x.get("t") or x.get("ct") or "") for x in walk(rng))
+                    if is_map:
+                        r.add(key, fn.loc(loop), True, "range-for over the table")
+                    else:
+                        r.undecided.append("%s: the range of this loop is not the drive table" % fn.loc(loop))
+                    continue
+                cond = loop["c"][-1] if loop["k"] == "DoStmt" else (loop["c"][loop["parts"]["cond"]] if "cond" in loop.get("parts", {}) else None)
+                occ = None
+                for x in walk(cond) if cond is not None else []:
+                    if is_call(x):
+                        nm = notpl(x.get("q") or "").split("::")[-1]
+                        if nm in ("is_drive_connected", "count", "contains") or (nm == "find"):
+                            occ = x
+                if occ is not None:
+                    r.add(key, fn.loc(loop), False, "the loop that collects the occupied drive numbers continues only while "
+                          "`%s` holds: it stops at the first unoccupied number, so drives behind a gap are left out" % show(occ)[:50])
+                elif cond is not None and any(x.get("k") == "CXXMemberCallExpr" and (strip(x["c"][0]) or {}).get("n") in ("end", "cend")
+                                             for x in walk(cond)):
+                    r.add(key, fn.loc(loop), True, "iterator loop to the end of the table")
+                else:
+                    r.undecided.append("%s: cannot tell how this enumeration loop is bounded" % fn.loc(loop))
+    return r
+
+
+# ---------------------------------------------------------------- R-C16-8
+def rule_policy_in_force(prog, fixture=False):
+    r = RuleResult("R-C16-8", "each image is attached under the allocation policy in force where its --file option "
+                   "stands: the connect_drives call that takes the policy variable lies inside the option loop that "
+                   "assigns that variable (a later loop would attach every image under the last policy given)",
+                   floor=0 if fixture else 1)
+    for fn in prog.functions.values():
+        if fn.name != "main" and not fixture:
+            continue
+        for n in fn.walk():
+            if not is_call(n) or notpl(n.get("q") or "").split("::")[-1] != "connect_drives":
+                continue
+            for a in call_args(n):
+                v = strip_all(a)
+                if v is None or v.get("k") != "DeclRefExpr" or v.get("dk") != "Var" or "DriveAllocation" not in (v.get("t") or ""):
+                    continue
+                writes = [w for w in fn.walk() if w.get("k") == "BinaryOperator" and w.get("op") == "=" and
+                          (strip_all(w["c"][0]) or {}).get("d") == v["d"]]
+                key = "%s::%s::connect_drives(%s)" % (fn.relfile(), fn.qn, v.get("n"))
+                if not writes:
+                    r.add(key, fn.loc(n), True, "the policy is never changed", nontrivial=False)
+                    continue
+                wl = set()
+                for w in writes:
+                    for anc in fn.ancestors(w):
+                        if anc.get("k") in ("ForStmt", "WhileStmt", "DoStmt", "CXXForRangeStmt"):
+                            wl.add(id(anc))
+                            break
+                mine = [id(anc) for anc in fn.ancestors(n) if anc.get("k") in ("ForStmt", "WhileStmt", "DoStmt", "CXXForRangeStmt")]
+                ok = bool(wl) and all(x in mine for x in wl)
+                r.add(key, fn.loc(n), ok, "attached in the option loop, where the policy is current" if ok else
+                      "the images are attached outside the loop in which `%s` is assigned (%s): every image is placed under "
+                      "the policy given last, not the one in force at its --file" %
+                      (v.get("n"), ", ".join(fn.loc(w) for w in writes[:2])))
+    return r
+
+
+# ---------------------------------------------------------------- R-C16-9
+def rule_occupancy_is_presence(prog, fixture=False):
+    r = RuleResult("R-C16-9", "a drive number is occupied as soon as the table has an entry for it, formatted or not: "
+                   "either is_drive_connected answers false only for an absent key, or no image ever attaches a "
+                   "surface without a configuration (an empty entry would otherwise be handed out again and two "
+                   "surfaces would share a number)", floor=0 if fixture else 1)
+    # producers of empty entries: nullopt pushed into a vector<optional<DriveConfig>>
+    producers = []
+    for fn in prog.functions.values():
+        for n in fn.walk():
+            if n.get("k") == "CXXMemberCallExpr" and (strip(n["c"][0]) or {}).get("n") in ("push_back", "emplace_back"):
+                obj = strip_all((strip(n["c"][0]) or {}).get("c", [None])[0])
+                if obj is None or "DriveConfig" not in (obj.get("t") or obj.get("ct") or ""):
+                    continue
+                args = n["c"][1:]
+                if not args or any(x.get("k") == "DeclRefExpr" and x.get("n") == "nullopt" for a in args for x in walk(a)) or \
+                        any((strip_all(a) or {}).get("k") in ("CXXConstructExpr", "CXXTemporaryObjectExpr") and not (strip_all(a) or {}).get("c")
+                            for a in args):
+                    producers.append((fn, n))
+    for fn in prog.functions.values():
+        if fn.name != "is_drive_connected":
+            continue
+        g = Guards(fn)
+        key = "%s::%s::false-only-when-absent" % (fn.relfile(), fn.qn)
+        bad = None
+        for n in fn.walk():
+            if n.get("k") == "ReturnStmt" and n.get("c") and folded(n["c"][0]) == 0:
+                absent = False
+                for l, rel, rr in (g.cmps(n) or []):
+                    if rel == "==" and any(x.get("k") == "CXXMemberCallExpr" and (strip(x["c"][0]) or {}).get("n") in ("end", "cend")
+                                           for side in (l, rr) for x in walk(side)):
+                        absent = True
+                for atom, truth in (g.truths(n) or []):
+                    a = strip_all(atom)
+                    if a is not None and a.get("k") == "CXXOperatorCallExpr" and a.get("op") in ("==", "!=") and \
+                            (truth == (a["op"] == "==")) and any(x.get("k") == "CXXMemberCallExpr" and
+                                                                 (strip(x["c"][0]) or {}).get("n") in ("end", "cend") for x in walk(a)):
+                        absent = True
+                    if a is not None and a.get("k") == "CXXMemberCallExpr" and (strip(a["c"][0]) or {}).get("n") in ("count", "contains") and not truth:
+                        absent = True
+                if not absent:
+                    bad = n
+        if bad is None:
+            r.add(key, "%s:%d" % (fn.relfile(), fn.line), True, "false is returned only for a key the table does not hold")
+        elif not producers:
+            r.add(key, fn.loc(bad), True, "false may be returned for an entry without configuration, but no image attaches such "
+                  "an entry (%d producers)" % len(producers))
+        else:
+            pf, pn = producers[0]
+            r.add(key, fn.loc(bad), False, "is_drive_connected can answer false for a key that is in the table (an entry without "
+                  "configuration), and %s attaches such entries (%s): the number of an unformatted surface is handed out "
+                  "again and two surfaces share it" % (pf.qn, pf.loc(pn)))
+    return r
+
+
 def run(ctx):
     prog = ctx.prog("dfs", "N")
     return [rule_tables(prog), rule_sequence_check(prog), rule_lookups(prog), rule_lowest_free(prog), rule_drive_number_range(prog),
-            rule_show_config_covers_all(prog)]
+            rule_show_config_covers_all(prog), rule_enumeration_covers_all(prog), rule_policy_in_force(prog),
+            rule_occupancy_is_presence(prog)]
 
 
 SELFTESTS = [
